@@ -7,7 +7,7 @@
 From stdpp Require Import gmap list.
 From Coq Require Import NArith ZArith.
 From VFS Require Import Core.Types Core.Prog Core.Calls Base.MemFS Base.Handles Base.Store Layer.VfsPath Layer.Overlay
-  Proofs.MemProofs Proofs.OvlProofs Proofs.OvlList.
+  Proofs.MemProofs Proofs.OvlProofs Proofs.OvlList Proofs.OvlLife.
 
 Notation mstate := (gmap (list (list N)) memfile).
 
@@ -71,6 +71,25 @@ Theorem C09_listing_merges_layers : forall hs lg ft (s0 s1 : mstate) (p : path),
       s0 !! whiteout_path (v0, []) (p ++ [n]) = None.
 Proof. exact read_dir_rule. Qed.
 
+(** creating over an entry that exists only in a lower layer fails as already existing (according to
+    the occupant) and changes neither layer *)
+Theorem C09_create_over_lower_entry : forall lg ft (s0 s1 : mstate) hs (n : list N) f,
+  wf s0 -> s0 !! whiteout_path (v0, []) [] = None -> s0 !! whiteout_path (v0, []) [n] = None ->
+  s0 !! [n] = None -> s1 !! [n] = Some f ->
+  run bhandler (ovl_impl (v0, []) [(v1, [])] (CCreateDir [n])) (mstore2 s0 s1 hs lg ft) =
+  (mstore2 s0 s1 hs lg ft, fail (match f_type f with File => EFileExists | Dir => EDirExists end)).
+Proof. exact create_dir_over_lower_entry. Qed.
+
+(** removing a directory that still has lower-layer children fails as non-empty and changes neither layer *)
+Theorem C09_remove_dir_with_lower_children : forall lg ft (s0 s1 : mstate) hs (p : path) (c : list N),
+  parent_closed s0 -> p <> [] ->
+  s0 !! whiteout_path (v0, []) p = None ->
+  (is_dir s0 p \/ (s0 !! p = None /\ is_dir s1 p)) ->
+  (s0 !! (whiteout_name :: p) = None \/ is_dir s0 (whiteout_name :: p)) ->
+  is_dir s1 p -> is_Some (s1 !! (p ++ [c])) -> s0 !! whiteout_path (v0, []) (p ++ [c]) = None ->
+  run bhandler (ovl_impl (v0, []) [(v1, [])] (CRemoveDir p)) (mstore2 s0 s1 hs lg ft) = (mstore2 s0 s1 hs lg ft, fail EOther).
+Proof. exact remove_dir_with_lower_children. Qed.
+
 Example C09_example :
   let f0 := mkMemFile File [1%N] TAuto None None in
   let f1 := mkMemFile File [2%N] TAuto None None in
@@ -89,3 +108,5 @@ Print Assumptions C09_metadata_from_first_layer.
 Print Assumptions C09_bytes_from_upper.
 Print Assumptions C09_bytes_from_lower.
 Print Assumptions C09_listing_merges_layers.
+Print Assumptions C09_create_over_lower_entry.
+Print Assumptions C09_remove_dir_with_lower_children.
